@@ -565,6 +565,12 @@ def _verdict(rows, key, exact):
             if exact:
                 if v > b:
                     return False
+            elif v == 0:
+                # an aggregate whose terms are all exactly zero is exact in doubles, and `b` is computed
+                # with the code's own operations: 0 <= b is decided exactly (limit 0 with tolerance 0 is an
+                # exact edge, not a rounding hazard)
+                if b < 0:
+                    return False
             else:
                 slack = EDGE * max(1.0, abs(b), abs(v))
                 if v > b + slack:
@@ -582,6 +588,9 @@ def _norm_time_verdict(rows, exact):
         n2 = sum((Fraction(v) if exact else v) ** 2 for v in r["doc"])
         if exact:
             if b < 0 or n2 > b * b:
+                return False
+        elif n2 == 0:
+            if b < 0:
                 return False
         else:
             n = math.sqrt(n2)
